@@ -136,6 +136,17 @@ struct Out {
     inconclusive: Option<String>,
 }
 
+thread_local! {
+    /// set when a bounded wait ran out while thread-pool jobs of this runtime were still
+    /// running (closes and opens go through the pool on the polling driver): no verdict
+    static POOL_LAG: Cell<bool> = const { Cell::new(false) };
+}
+
+/// Thread-pool jobs submitted by this program that have not ended yet (from the hook log).
+fn pool_jobs_pending() -> bool {
+    !crate::drv::soup::wait_pool_jobs(Duration::ZERO)
+}
+
 fn vio(v: &mut Vec<(String, String)>, rule: &str, ctx: &str, what: String) {
     v.push((format!("C06/{rule}/{ctx}"), what));
 }
@@ -181,10 +192,23 @@ async fn close_protocol<H: 'static>(
         alive.set(alive.get() - 1);
         drop(c);
     }
-    // bounded number of loop turns for close() to notice
+    // bounded number of loop turns for close() to notice; turns spent while one of this
+    // runtime's thread-pool jobs is still running (a close on the polling driver is one) do
+    // not count, up to a generous wall-clock watchdog whose expiry is no verdict
     let mut t = 0;
+    let t0 = std::time::Instant::now();
     while !done.get() && t < 200 {
         turns(1).await;
+        // the bound only runs once its precondition holds: every other handle and operation is
+        // gone (an operation may be waiting for the peer thread to act) and no pool job is running
+        if alive.get() > 0 || pool_jobs_pending() {
+            if t0.elapsed() > Duration::from_secs(10) {
+                POOL_LAG.with(|l| l.set(true));
+                drop(h);
+                return;
+            }
+            continue;
+        }
         t += 1;
     }
     if !done.get() {
@@ -346,10 +370,32 @@ async fn scenario(p: Prog, viol: &mut Vec<(String, String)>) -> String {
                     delivered += handle(r).await;
                 }
             }
-            let verdict = rx.recv_timeout(Duration::from_secs(5)).unwrap_or("no-report");
+            // wait for the peer's observation while the runtime keeps turning (the completion of
+            // an accept that was cancelled too late is processed, and its socket closed, by the
+            // runtime: blocking this thread would keep that descriptor alive artificially)
+            let t0 = std::time::Instant::now();
+            let verdict = loop {
+                match rx.try_recv() {
+                    Ok(v) => break v,
+                    Err(std::sync::mpsc::TryRecvError::Disconnected) => break "no-report",
+                    Err(std::sync::mpsc::TryRecvError::Empty) => {}
+                }
+                if t0.elapsed() > Duration::from_secs(8) {
+                    break "no-report";
+                }
+                compio_runtime::time::sleep(Duration::from_millis(1)).await;
+            };
             let _ = peer.join();
+            // a connection that is still waiting in the listener's backlog was not taken by
+            // anybody: the peer was late, nothing was swallowed
+            let in_backlog = {
+                use std::os::fd::AsRawFd;
+                crate::drv::poll_ready(l.as_raw_fd(), libc::POLLIN)
+            };
             match (delivered, verdict) {
                 (1, "echoed") | (0, "closed") | (_, "connect-failed") => {}
+                (0, "silent") if in_backlog => {}
+                (_, "no-report") => POOL_LAG.with(|x| x.set(true)),
                 (0, "silent") => vio(viol, "connection-swallowed", &ctx,
                     "the connection was neither delivered to any accept call nor closed: its descriptor is held by nobody the caller can reach".to_string()),
                 (d, v) => vio(viol, "accept-inconsistent", &ctx, format!("delivered={d} but the peer observed {v}")),
@@ -398,6 +444,10 @@ async fn scenario(p: Prog, viol: &mut Vec<(String, String)>) -> String {
 }
 
 fn run_prog(p: &Prog) -> Out {
+    let _ = compio_driver::verif::drain();
+    crate::drv::soup::reset_stash();
+    POOL_LAG.with(|l| l.set(false));
+    compio_driver::verif::enable(true);
     let outer_before = fd_table();
     let mut pb = ProactorBuilder::new();
     pb.driver_type(if p.driver == "poll" { DriverType::Poll } else { DriverType::IoUring });
@@ -406,6 +456,7 @@ fn run_prog(p: &Prog) -> Out {
     let rt = match Runtime::builder().with_proactor(pb).build() {
         Ok(rt) => rt,
         Err(e) => {
+            compio_driver::verif::enable(false);
             return Out { viol: vec![], sig: String::new(), inconclusive: Some(format!("cannot build runtime: {e}")) };
         }
     };
@@ -418,8 +469,13 @@ fn run_prog(p: &Prog) -> Out {
         let sig = scenario(p2, &mut viol).await;
         // quiescence: closes may run on pool threads / as operations
         let mut leak = None;
-        for _ in 0..400 {
+        let mut t = 0;
+        let t0 = std::time::Instant::now();
+        while t < 400 {
             turns(1).await;
+            if !(pool_jobs_pending() && t0.elapsed() < Duration::from_secs(10)) {
+                t += 1;
+            }
             let now = fd_table();
             let extra: Vec<_> = now.iter().filter(|(n, t)| before.get(n).map(|b| classify(b)) != Some(classify(t))).collect();
             if extra.is_empty() {
@@ -431,7 +487,9 @@ fn run_prog(p: &Prog) -> Out {
         (sig, leak)
     });
     let ctx = format!("{}/{}", p.driver, SCENARIOS[p.scenario]);
-    if let Some(l) = inner_leak {
+    if inner_leak.is_some() && pool_jobs_pending() {
+        POOL_LAG.with(|l| l.set(true));
+    } else if let Some(l) = inner_leak {
         let kinds: Vec<String> = l.iter().map(|x| classify(x.split("->").nth(1).unwrap_or(""))).collect();
         vio(&mut viol, "descriptor-leaked", &ctx,
             format!("after every handle was dropped/closed these descriptors are still open after 400 loop turns: {l:?} (kinds {kinds:?})"));
@@ -439,7 +497,12 @@ fn run_prog(p: &Prog) -> Out {
     drop(rt);
     // the runtime's own descriptors must be gone as well (pool threads may lag a little)
     let mut outer_leak = None;
-    for _ in 0..300 {
+    let mut t = 0;
+    let t0 = std::time::Instant::now();
+    while t < 300 {
+        if !(pool_jobs_pending() && t0.elapsed() < Duration::from_secs(10)) {
+            t += 1;
+        }
         let now = fd_table();
         let extra: Vec<_> = now.iter().filter(|(n, _)| !outer_before.contains_key(n)).map(|(n, t)| format!("{n}->{t}")).collect();
         if extra.is_empty() {
@@ -449,8 +512,15 @@ fn run_prog(p: &Prog) -> Out {
         outer_leak = Some(extra);
         std::thread::sleep(Duration::from_millis(1));
     }
-    if let Some(l) = outer_leak {
+    if outer_leak.is_some() && pool_jobs_pending() {
+        POOL_LAG.with(|l| l.set(true));
+    } else if let Some(l) = outer_leak {
         vio(&mut viol, "descriptor-leaked-after-runtime-drop", &ctx, format!("still open after the runtime was dropped: {l:?}"));
+    }
+    compio_driver::verif::enable(false);
+    let _ = compio_driver::verif::drain();
+    if POOL_LAG.with(|l| l.replace(false)) {
+        return Out { viol: vec![], sig, inconclusive: Some("a bounded wait ran out while thread-pool jobs of the runtime were still running (10 s watchdog): no verdict".into()) };
     }
     Out { viol, sig, inconclusive: None }
 }
